@@ -1,6 +1,6 @@
 (* C18: subvalue / subgraph / normalize preserve the represented function *)
 From QV.Model Require Import Base Matrix Arith Extrema SubNorm.
-From QV.Proofs Require Import BaseProofs KeyProofs ArithProofs TempRange InvProofs RefreshProofs.
+From QV.Proofs Require Import BaseProofs KeyProofs ArithProofs TempRangeQ InvProofs RefreshProofs.
 From Coq Require Import Lia Lqa Qfield Qminmax.
 Open Scope Q_scope.
 
